@@ -89,6 +89,43 @@ def insertAppend (t : Levels) (key lsn : Nat) (value : Bytes) (nextFree : Nat) :
         let (inner', nf) := bubble lsn t.inner sep left.off newOff (nextFree + c_pageSize)
         .ok ({ leaves := setLast t.leaves (left, true) ++ [(right, true)], inner := inner' }, nf)
 
+/-- `updateCell` + `markDirty` on the leaf holding `key` (the page-local change of UPDATE, of the
+catalog re-pointing and of log replay) -/
+def setVal (t : Levels) (key lsn : Nat) (value : Bytes) : Levels :=
+  { t with leaves := t.leaves.map fun (l, d) =>
+      if l.cells.any (fun c => c.key == key) then
+        ({ l with cells := l.cells.map (fun c => if c.key == key then { c with val := value } else c), lsn := lsn }, true)
+      else (l, d) }
+
+/-- `MarkDeleted`: the tombstone flag of the cell `key` -/
+def setDeleted (t : Levels) (key lsn : Nat) : Levels :=
+  { t with leaves := t.leaves.map fun (l, d) =>
+      if l.cells.any (fun c => c.key == key) then
+        ({ l with cells := l.cells.map (fun c => if c.key == key then { c with deleted := true } else c), lsn := lsn }, true)
+      else (l, d) }
+
+/-- what `scanRight` hands to its callback: the live cells, left to right -/
+def live (t : Levels) : List LeafCell := (cells t).filter fun c => !c.deleted
+
+/-- `findCell`'s routing rule in one internal node: the child left of the first separator above the key,
+else the rightmost child -/
+def routeChild (n : Internal) (key : Nat) : Nat :=
+  match n.cells.find? (fun c => key < c.key) with
+  | some c => c.child
+  | none => n.right
+
+/-- point lookup from the root: walk the levels top-down by `routeChild`, then search the leaf -/
+def routeOff (t : Levels) (key : Nat) : Nat :=
+  t.inner.reverse.foldl (fun off lvl =>
+    match lvl.find? (fun p => p.1.off == off) with
+    | some p => routeChild p.1 key
+    | none => off) (rootOff t)
+
+def lookup (t : Levels) (key : Nat) : Option LeafCell :=
+  match t.leaves.find? (fun p => p.1.off == routeOff t key) with
+  | some p => p.1.cells.find? (fun c => c.key == key)
+  | none => none
+
 /-- read the tree rooted at `root` back from a page heap (`none` if it is not a tree of uniform depth) -/
 def ofHeap (get : Nat → Option (Node × Bool)) : Nat → Nat → Option Levels
   | 0, _ => none
